@@ -19,8 +19,10 @@ GENERIC_TECH = "symbolic execution of the real Python code on z3-backed values; 
 CLAIMED = {
     'C01': ("6/C01", "Relation equations are checked per clause against the times the library reports for the referenced operation, for all durations >= 0."),
     'C02': ("6/C02", "Listing = added leaves exactly once (by identity), causal, stable; symbolic durations and shared link objects make value-based merging of equal operations a solver-explored branch."),
+    'C03': ("6/C03", "Differential on one path: history with observations vs the same mutations without them, final observations equal as solver-decided term equalities; plus 'reflects the change' against a fresh build under the final settings. lru_cache is modelled semantically on symbolic paths and validated by the concrete twin."),
     'C04': ("6/C04", "Span equation duration == max end - min start over the listed contents (z3 If-chains) for all durations >= 0, plus the follower clause."),
     'C05': ("6/C05", "All 26 copy() implementations: field-by-field, channel, duration-term, relation-structure, schedule and acquisition equality of copy and original, then independence under mutation of either side."),
+    'C06': ("6/C06", "Counts, identity of untouched operations, reset, idempotence, chain equation start(copy k) = max end over relation leaves of copy k-1 (z3 If-max), n*T clause, library concatenation clause."),
     'C12': ("6/C12", "Tiling, containment, disjointness, cover, translation and estimate clauses for unbounded symbolic round counts."),
     'C16': ("6/C16", "Class B (finite): tables of the real predicates are read on every run and z3 decides the equivalence with the statement's predicate for all subsets of <= 4 edges x idle qubits at once; the composition lemma and the generator are executed on the real code within the stated bounds."),
     'C17': ("6/C17", "Class B (finite): shipped tables are read into z3 lookup tables and each clause is a solver witness query over layer/gate/qubit indices; derived and composite descriptions are executed on bounded families of involved-qubit subsets."),
